@@ -79,6 +79,9 @@ Definition bump_rb c := mkClient (me c) (is_admin c) (retention c) (kc c) (dedup
 
 Definition init_core : core := mkCore 0 1 1 true None [] [] [] 0 None [].
 Definition init_client (i : N) (admin : bool) (ret : N) : client := mkClient i admin ret init_core [] [] [] 0.
+(* a client that joins later through a welcome: it starts in the state the adding commit produced, holding nothing older *)
+Definition join_core (cur ep data : N) : core := mkCore cur ep ep true None [] [] [] data None [].
+Definition join_client (i : N) (admin : bool) (ret cur ep data : N) : client := mkClient i admin ret (join_core cur ep data) [] [] [] 0.
 
 Notation dget := (aget N.eqb).
 
@@ -230,7 +233,8 @@ Fixpoint process (fuel : nat) (c : client) (e : event) : client * rk :=
   else if e_kind e =? 1 then
     (* application message from another member *)
     let readable := (e_epoch e =? k_epoch k) || existsb (fun es => (fst es =? e_epoch e) && (snd es =? e_state e)) (k_past k) in
-    if negb readable || existsb (N.eqb (e_msg e)) (k_seen k) then fail_unprocessable c e rec_epoch else
+    (* e_bad = 7: the rumor inside names an author other than the MLS-authenticated sender (verify_rumor_author) *)
+    if negb readable || existsb (N.eqb (e_msg e)) (k_seen k) || (e_bad e =? 7) then fail_unprocessable c e rec_epoch else
     let c := set_core c (with_seen k (e_msg e :: k_seen k)) in
     let c1 := set_msgs c (aset N.eqb (e_msg e) (mkM MS_PROCESSED (k_epoch k) (e_id e) (e_msg e)) (msgs c)) in
     let c2 := put_dedup c1 (e_id e) PS_PROCESSED (Some (k_epoch k)) (Some (e_msg e)) in
